@@ -12,6 +12,13 @@ takes one Boolean describing the source as it is *now*:
                                kept when a unit was stored, and one byte left after a 257-byte raw unit is
                                filled by one more TS payload
 
+  muxSegLastLine = false       the unchanged tree: every insert_sliced_data_units call starts its own `last_line` at 0, so a
+                               Teletext line with the undefined line number 0 behind a raw line request gets field_parity
+                               "first field" whatever was sent before (finding C06-D4)
+  muxSegLastLine = true        fixes/C06-mux-undef-field-after-raw.diff: generate_pes_packet hands the line number reached
+                               before the segment (`seg_last_line`) to insert_sliced_data_units (`first_last_line`);
+                               vbi_dvb_multiplex_sliced passes 0 (model: `Mux.segStart`)
+
 Any other shape of these statements is reported as a translator failure, so that the model is read again."""
 import os, re, sys
 
@@ -45,15 +52,43 @@ def main():
         raise SystemExit("gen_muxflags: the last_du_size bookkeeping of generate_pes_packet has an unknown shape "
                          "(direct=%d temp=%d keep=%d init=%s bump=%s); re-read the code and update "
                          "lean/ZvbiModel/Mux/RawModel.lean genLoopR / generatePesR" % (n_direct, n_temp, n_keep, init, bump))
+    # --- round 5: where insert_sliced_data_units starts its last_line (finding C06-D4)
+    mi = re.search(r"\ninsert_sliced_data_units\s*\(.*?\n\}\n", src, flags=re.S)
+    if not mi:
+        raise SystemExit("gen_muxflags: insert_sliced_data_units not found")
+    ibody = re.sub(r"\s+", " ", mi.group(0))
+    i_orig = "vbi_bool fixed_length) {" in ibody and "last_line = 0; *last_du_size = 0;" in ibody
+    i_fix = ("vbi_bool fixed_length, unsigned int first_last_line) {" in ibody
+             and "last_line = first_last_line; *last_du_size = 0;" in ibody)
+    flat = re.sub(r"\s+", " ", src)
+    n_calls = len(re.findall(r"insert_sliced_data_units \(", flat))       # definition + 2 calls
+    g_orig = "s - s_begin, service_mask, fixed_length);" in body and "seg_last_line" not in body
+    g_fix = ("s - s_begin, service_mask, fixed_length, seg_last_line);" in body
+             and body.count("s_begin = ++s; seg_last_line = last_line;") == 2
+             and "seg_last_line = 0; last_line = 0;" in body and body.count("seg_last_line") == 5)
+    m_orig = "sliced, s_left, service_mask, fixed_length);" in flat
+    m_fix = "sliced, s_left, service_mask, fixed_length, 0);" in flat
+    if n_calls == 3 and i_orig and g_orig and m_orig and not (i_fix or g_fix or m_fix):
+        seg = "false"
+    elif n_calls == 3 and i_fix and g_fix and m_fix and not (i_orig or g_orig or m_orig):
+        seg = "true"
+    else:
+        raise SystemExit("gen_muxflags: the last_line start of insert_sliced_data_units has an unknown shape "
+                         "(calls=%d insert=%s/%s generate=%s/%s multiplex_sliced=%s/%s); re-read the code and update "
+                         "lean/ZvbiModel/Mux/Model.lean segStart / genLoop and RawModel.lean genLoopR"
+                         % (n_calls, i_orig, i_fix, g_orig, g_fix, m_orig, m_fix))
     text = ("-- generated by translate/gen_muxflags.py from src/dvb_mux.c; do not edit\n"
             "namespace Zvbi.Gen\n\n"
             "/-- `generate_pes_packet` keeps the size of the data unit stored last across calls of\n"
             "`insert_sliced_data_units` / `insert_raw_data_units` that store nothing, and fills one byte left\n"
             "after a 257-byte raw unit with one more TS payload (fix C06-mux-raw-last-stuffing present) -/\n"
-            "def muxKeepsLastDuSize : Bool := %s\n\nend Zvbi.Gen\n" % flag)
+            "def muxKeepsLastDuSize : Bool := %s\n\n"
+            "/-- `generate_pes_packet` hands the line number reached before a segment of sliced lines to\n"
+            "`insert_sliced_data_units` (fix C06-mux-undef-field-after-raw present); otherwise every call starts at 0 -/\n"
+            "def muxSegLastLine : Bool := %s\n\nend Zvbi.Gen\n" % (flag, seg))
     if not os.path.exists(OUT) or open(OUT).read() != text:
         open(OUT, "w").write(text)
-    print("gen_muxflags: muxKeepsLastDuSize = %s" % flag)
+    print("gen_muxflags: muxKeepsLastDuSize = %s, muxSegLastLine = %s" % (flag, seg))
 
 
 if __name__ == "__main__":
